@@ -479,6 +479,69 @@ pub open spec fn neighbors_listed<T: Eq + PartialOrd + Send + Sync, A: Clone>(g:
     &&& forall|k: int| 0 <= k < m.len() ==> (#[trigger] m[k]).node_index < g.n() && **out[k] == *g.nodes_vec@[m[k].node_index as int]
 }
 
+// position x is named by an entry of the traversal row
+pub open spec fn in_row(row: Seq<AdjacentNode>, x: usize) -> bool {
+    exists|k: int| 0 <= k < row.len() && (#[trigger] row[k]).node_index == x
+}
+// one step of a breadth-first search from the node named a to the node named x: on a directed graph x's position is in the successor
+// index set of a's position, on an undirected graph it is named by a's predecessor row or successor row (what get_successors_or_neighbors lists)
+pub open spec fn steps_to<T: Eq + PartialOrd + Send + Sync, A: Clone>(g: Graph<T, A>, a: T, x: T) -> bool {
+    &&& g.knows(a) && g.knows(x)
+    &&& if g.specs.directed { g.succ_set(g.nodes_map@[a]).contains(g.nodes_map@[x]) }
+        else { in_row(g.predecessors_vec@[g.nodes_map@[a] as int]@, g.nodes_map@[x]) || in_row(g.successors_vec@[g.nodes_map@[a] as int]@, g.nodes_map@[x]) }
+}
+
+// `out` lists exactly the nodes one step away from the node named a
+pub open spec fn one_step_list<T: Eq + PartialOrd + Send + Sync, A: Clone>(g: Graph<T, A>, a: T, out: Seq<&Arc<Node<T, A>>>) -> bool {
+    &&& forall|k: int| 0 <= k < out.len() ==> steps_to(g, a, (#[trigger] out[k]).name)
+    &&& forall|x: T| steps_to(g, a, x) ==> exists|k: int| 0 <= k < out.len() && (#[trigger] out[k]).name == x
+}
+
+// out[i] is one step away from an earlier name of the list
+pub open spec fn earlier_step<T: Eq + PartialOrd + Send + Sync, A: Clone>(g: Graph<T, A>, out: Seq<T>, i: int) -> bool {
+    exists|j: int| 0 <= j < i && steps_to(g, #[trigger] out[j], out[i])
+}
+// what breadth_first_search(start) returns: `start` first, no name twice, every later name one step away from an EARLIER one (so every
+// listed node is reachable from start), and the list is closed under steps (so every reachable node is listed)
+pub open spec fn bfs_rel<T: Eq + PartialOrd + Send + Sync, A: Clone>(g: Graph<T, A>, start: T, out: Seq<T>) -> bool {
+    &&& out.len() >= 1 && out[0] == start
+    &&& out.no_duplicates()
+    &&& forall|i: int| 1 <= i < out.len() ==> #[trigger] earlier_step(g, out, i)
+    &&& forall|a: T, x: T| out.contains(a) && #[trigger] steps_to(g, a, x) ==> out.contains(x)
+}
+
+// steps are symmetric (true of an undirected graph whose traversal rows mirror each other: lemma_steps_symmetric in u_trav)
+pub open spec fn steps_symmetric<T: Eq + PartialOrd + Send + Sync, A: Clone>(g: Graph<T, A>) -> bool {
+    forall|a: T, x: T| #[trigger] steps_to(g, a, x) ==> steps_to(g, x, a)
+}
+pub open spec fn closed_under_steps<T: Eq + PartialOrd + Send + Sync, A: Clone>(g: Graph<T, A>, c: Set<T>) -> bool {
+    forall|a: T, x: T| c.contains(a) && #[trigger] steps_to(g, a, x) ==> c.contains(x)
+}
+// s is the set of names a breadth-first search from `start` lists: exactly the nodes reachable from start
+pub open spec fn reach_set_of<T: Eq + PartialOrd + Send + Sync, A: Clone>(g: Graph<T, A>, start: T, o: Seq<T>, s: Set<T>) -> bool {
+    bfs_rel(g, start, o) && forall|x: T| s.contains(x) <==> #[trigger] o.contains(x)
+}
+pub open spec fn is_reach_set<T: Eq + PartialOrd + Send + Sync, A: Clone>(g: Graph<T, A>, s: Set<T>) -> bool {
+    exists|start: T, o: Seq<T>| #[trigger] reach_set_of(g, start, o, s)
+}
+// with symmetric steps, a closed set that meets the list of a search from v contains v (walk the search tree back to its root)
+pub proof fn lemma_reaches_back<T: Eq + PartialOrd + Send + Sync, A: Clone>(g: Graph<T, A>, v: T, o: Seq<T>, i: int, c: Set<T>)
+    requires
+        bfs_rel(g, v, o), 0 <= i < o.len(),
+        steps_symmetric(g), closed_under_steps(g, c),
+        c.contains(o[i]),
+    ensures
+        c.contains(v),
+    decreases i
+{
+    if i > 0 {
+        assert(earlier_step(g, o, i));
+        let j = choose|j: int| 0 <= j < i && steps_to(g, #[trigger] o[j], o[i]);
+        assert(steps_to(g, o[i], o[j]));
+        lemma_reaches_back(g, v, o, j, c);
+    }
+}
+
 // what reverse() returns: a graph rebuilt (new_from_nodes_and_edges) from the same nodes and every edge flipped
 pub open spec fn reverse_outcome<T: Eq + PartialOrd + Send + Sync, A: Clone>(g: Graph<T, A>, r: Result<Graph<T, A>, Error>) -> bool {
     nfne_rel(node_names_of(g.nodes_vec@), Seq::new(g.all_edges_seq().len(), |i: int| spec_reversed(g.all_edges_seq()[i])), g.specs, r)
